@@ -2,7 +2,9 @@
 """Manual triage helper (never run by a check): tools/kf.py add <PID> [note]  - records every replay file
 currently under /verif/replay/<PID>/ as a known finding (status 'known') unless already listed.
 tools/kf.py fixed <PID> <commit> <signature> <what>  - records a fixed entry.
-tools/kf.py drop <PID> <signature-substring>  - removes matching known entries."""
+tools/kf.py drop <PID> <signature-substring>  - removes matching known entries.
+tools/kf.py tofixed <PID> <signature-substring> <commit>  - turns matching known entries into fixed entries.
+tools/kf.py unseen <PID>  - lists known entries the last run of the check did not see (candidates for tofixed/drop)."""
 import glob
 import json
 import os
@@ -41,6 +43,25 @@ def main():
         pid, commit, sig, what = sys.argv[2:6]
         d['findings'].append({'status': 'fixed', 'property': pid, 'commit': commit, 'signature': sig,
                               'what': 'fixed: property=%s %s %s' % (pid, commit, what)})
+    elif cmd == 'tofixed':
+        pid, sub, commit = sys.argv[2:5]
+        n = 0
+        for e in d['findings']:
+            if e['property'] == pid and e.get('status') == 'known' and sub in e['signature']:
+                e['status'] = 'fixed'
+                e['commit'] = commit
+                e['what'] = 'fixed: property=%s %s %s' % (pid, commit, e.get('what', ''))
+                e.pop('note', None)
+                n += 1
+        print('converted', n)
+    elif cmd == 'unseen':
+        pid = sys.argv[2]
+        ev = json.load(open(os.path.join(VERIF, 'evidence', pid + '.json')))
+        seen = set(ev['coverage'].get('known_findings_seen', []))
+        for e in d['findings']:
+            if e['property'] == pid and e.get('status') == 'known' and e['signature'] not in seen:
+                print(e['signature'])
+        return
     elif cmd == 'drop':
         pid, sub = sys.argv[2:4]
         before = len(d['findings'])
